@@ -409,4 +409,164 @@ theorem clay_addRrsetOp (sec : RrSection) (hint : Hint) (owner : WName) (ty cls 
   rw [c6] at hch
   exact ⟨its, hch, hl⟩
 
+
+/-! ### the question and the other calls -/
+
+theorem clay_addQuestion (qn : WName) (qt qc : Nat) (s s' : State) {b : Body} (hI : I s) (h : CLay s b)
+    (hwf : qn.WF) (hok : addQuestion qn qt qc s = (.ok (), s')) :
+    CLay s' { b with qs := b.qs ++ [⟨qn, qt, qc⟩] } := by
+  obtain ⟨s3, hsq, hb, hs'⟩ := addQuestion_ok_inv qn qt qc s s' hok
+  obtain ⟨k, hit, hcur, hnm, hby⟩ := addQuestionBody_item qn qt qc s s3 hI.winv hwf hb
+  have e : Ext s s3 := by
+    have := frame_addQuestionBody qn qt qc s
+    rw [hb] at this; exact this
+  obtain ⟨hcr, hban, hbns, hbar⟩ := h.sq hsq
+  have hk := keepsSect_addQuestionBody qn qt qc s
+  rw [hb] at hk
+  simp only at hk
+  have ho : s'.octets = s3.octets := by rw [hs']
+  have hc : s'.cursor = s3.cursor := by rw [hs']
+  have hg : s'.gLabels = s3.gLabels := by rw [hs']
+  have hp : pend s' = pend s := by rw [hs']; unfold pend; show _ = _; rw [e.edns, e.tsig]
+  refine ⟨?_, ?_, ?_, ?_, ?_, ?_, ?_, ?_, ?_⟩
+  · obtain ⟨qs, h1, h2⟩ := h.q
+    refine ⟨qs ++ [⟨s.cursor, k, s.mode, ⟨qn, qt, qc⟩⟩], ?_, by rw [List.map_append, h2]; rfl⟩
+    have hq3 : QChainC s3 qs 12 s.cursor := by
+      rw [hcr]; exact qchainC_ext e hI.inv.rr_hi h1
+    have := qchainC_snoc (x := ⟨s.cursor, k, s.mode, ⟨qn, qt, qc⟩⟩) hq3 ⟨hit, hnm, hby⟩
+    have hrs : s'.rrStart = s.cursor + k + 4 := by rw [hs']; exact hcur
+    rw [hrs]
+    exact qchainC_fields ho hc hg this
+  · intro hle
+    refine ⟨[], ?_, by rw [hban, hbns, hbar]; rfl⟩
+    rw [hs']; exact rfl
+  · rw [hs']; show s3.qdcount + 1 = _; rw [e.qd, h.qd, List.length_append]; rfl
+  · rw [hs']; show s3.ancount = _; rw [e.an]; exact h.an
+  · rw [hs']; show s3.nscount = _; rw [e.ns]; exact h.ns
+  · rw [hp, hs']; show s3.arcount = _; rw [e.ar]; exact h.ar
+  · intro _; rw [hs']; exact ⟨rfl, hban, hbns, hbar⟩
+  · intro _; exact ⟨hbns, hbar⟩
+  · intro _; exact hbar
+
+theorem clay_counts {s s' : State} {b : Body} (h : CLay s b) (ho : s'.octets = s.octets)
+    (hc : s'.cursor = s.cursor) (hg : s'.gLabels = s.gLabels) (hr : s'.rrStart = s.rrStart)
+    (hqd : s'.qdcount = s.qdcount) (han : s'.ancount = s.ancount) (hns : s'.nscount = s.nscount)
+    (hs : s'.sect = s.sect) {d : Nat} (hp : pend s' = pend s + d) (har : s'.arcount = s.arcount + d) :
+    CLay s' b := by
+  refine ⟨?_, ?_, by rw [hqd]; exact h.qd, by rw [han]; exact h.an, by rw [hns]; exact h.ns,
+    by rw [har, hp, h.ar]; omega, by rw [hs, hc, hr]; exact h.sq, by rw [hs]; exact h.sa, by rw [hs]; exact h.su⟩
+  · obtain ⟨qs, h1, h2⟩ := h.q
+    exact ⟨qs, by rw [hr]; exact qchainC_fields ho hc hg h1, h2⟩
+  · intro hle
+    rw [hc] at hle
+    obtain ⟨rs, h1, h2⟩ := h.r hle
+    exact ⟨rs, by rw [hr, hc]; exact rchainC_fields ho hc hg h1, h2⟩
+
+theorem clay_setEdns (p : Nat) (s : State) {b : Body} (h : CLay s b) : CLay (setEdns p s).2 b := by
+  unfold setEdns
+  repeat' split
+  all_goals first
+    | exact h
+    | skip
+  rename_i h1 h2 h3
+  have hn : s.edns = none := by cases he : s.edns <;> simp_all
+  refine clay_counts (d := 1) h rfl rfl rfl rfl rfl rfl rfl rfl ?_ rfl
+  unfold pend; simp [hn]; omega
+
+theorem clay_setTsig (m : TsigMode) (rr : TsigRr) (s : State) {b : Body} (h : CLay s b) :
+    CLay (setTsig m rr s).2 b := by
+  unfold setTsig
+  repeat' split
+  all_goals first
+    | exact h
+    | skip
+  rename_i h1 h2 h3
+  have hn : s.tsig = none := by cases he : s.tsig <;> simp_all
+  refine clay_counts (d := 1) h rfl rfl rfl rfl rfl rfl rfl rfl ?_ rfl
+  unfold pend; simp [hn]
+
+theorem clay_setMode (m : CMode) (s : State) {b : Body} (h : CLay s b) : CLay (setCompressionMode m s).2 b :=
+  clay_counts (d := 0) h rfl rfl rfl rfl rfl rfl rfl rfl rfl rfl
+
+theorem clay_hv (s : State) (v : Option HV) {b : Body} (h : CLay s b) : CLay { s with hv := v } b :=
+  clay_counts (d := 0) h rfl rfl rfl rfl rfl rfl rfl rfl rfl rfl
+
+theorem clay_new (buf : Bytes) (limit : Nat) (s : State) (h : Writer.new buf limit = .ok s) : CLay s {} := by
+  unfold Writer.new at h
+  dsimp only at h
+  split at h
+  · cases h
+  · have hs := Out.ok.inj h
+    have h1 : s.rrStart = 12 := by rw [← hs]; rfl
+    have h2 : s.cursor = 12 := by rw [← hs]; rfl
+    have h3 : s.qdcount = 0 ∧ s.ancount = 0 ∧ s.nscount = 0 ∧ s.arcount = 0 ∧ s.edns = none ∧ s.tsig = none := by
+      rw [← hs]; exact ⟨rfl, rfl, rfl, rfl, rfl, rfl⟩
+    refine ⟨⟨[], by rw [h1]; rfl, rfl⟩, fun _ => ⟨[], by rw [h1, h2]; rfl, rfl⟩, h3.1, h3.2.1, h3.2.2.1, ?_,
+      fun _ => ⟨by rw [h1, h2], rfl, rfl, rfl⟩, fun _ => ⟨rfl, rfl⟩, fun _ => rfl⟩
+    unfold pend
+    rw [h3.2.2.2.1, h3.2.2.2.2.1, h3.2.2.2.2.2]
+    rfl
+
+
+/-! ### `clear_rrs` -/
+
+/-- the hop at an item reads inside the item's chunk -/
+theorem hop_shrink {oct : Bytes} {cur c' a k q : Nat} (hop : Hop oct cur a q) (hck : ChunkAt oct a k)
+    (hc : a + k ≤ c') : Hop oct c' a q := by
+  obtain ⟨pre, b, hwf, hb, hkk⟩ := hck
+  have hlen : (pre.flatMap WName.encLabel ++ [b]).length = encLen pre + 1 := by simp [encLen]
+  have hk1 : 1 ≤ k := by rcases hkk with ⟨_, e⟩ | ⟨_, e⟩ <;> omega
+  cases hop with
+  | here hq' hb' hnp => exact .here (by omega) hb' hnp
+  | jump hq' h1 h2 hp hlt h3 hnp =>
+    have h0 := hb 0 (by rw [hlen]; omega)
+    rw [Nat.add_zero, h1] at h0
+    have hk2 : 2 ≤ k := by
+      rcases hkk with ⟨hb0, _⟩ | ⟨_, e⟩
+      · exfalso
+        cases pre with
+        | nil =>
+          simp at h0; subst h0
+          rw [hb0] at hp; exact absurd hp (by decide)
+        | cons l pre' =>
+          simp [WName.encLabel] at h0
+          have hl := hwf l List.mem_cons_self
+          subst h0
+          rw [ofNat_len_notPtr hl.2] at hp; cases hp
+      · omega
+    exact .jump (by omega) h1 h2 hp hlt h3 hnp
+
+theorem clay_clearRrs (s : State) {b : Body} (h : CLay s b) (hI : I s) : CLay (clearRrs s).2 { qs := b.qs } := by
+  simp only [clearRrs, M.modify_apply]
+  have hrr := hI.inv.rr_hi
+  have hG : ∀ x, (GL s x ∧ x < s.rrStart) → x ∈ s.gLabels.filter (· < s.rrStart) := by
+    intro x ⟨h1, h2⟩
+    simp only [List.mem_filter, decide_eq_true_eq]
+    exact ⟨h1, h2⟩
+  refine ⟨?_, fun _ => ⟨[], rfl, rfl⟩, h.qd, rfl, rfl, ?_, fun _ => ⟨rfl, rfl, rfl, rfl⟩, fun _ => ⟨rfl, rfl⟩,
+    fun _ => rfl⟩
+  · obtain ⟨qs, h1, h2⟩ := h.q
+    refine ⟨qs, ?_, h2⟩
+    show QChainC _ qs 12 s.rrStart
+    refine qchainC_move (lo := 0) (e := s.rrStart) (fun it _ hk hq => ?_) (Nat.zero_le _) h1
+    obtain ⟨hit, hnm, hby⟩ := hq
+    have hgl : ∀ g ∈ s.gLabels, g ≤ it.a → g ∈ s.gLabels.filter (· < s.rrStart) := by
+      intro g hg hga
+      simp only [List.mem_filter, decide_eq_true_eq]
+      exact ⟨hg, by omega⟩
+    refine ⟨item_move (lo := 0) hit (fun _ _ => Nat.zero_le _) (fun _ _ _ => rfl)
+      (by show it.a + it.k ≤ s.rrStart; omega) hgl, ?_, hby⟩
+    obtain ⟨q, ls, hop, hst, hm⟩ := hnm
+    have hqa := (hop_le hop).1
+    have hqg : q ∈ s.gLabels := (nameAt_start hst).1
+    obtain ⟨ls', hl'⟩ := hI.qinv.labs q hqg (by omega)
+    have := nameAt_unique hl' hst
+    subst this
+    refine ⟨q, ls', hop_shrink hop hit.2.1 (by show it.a + it.k ≤ s.rrStart; omega), ?_, hm⟩
+    exact nameAt_frame (lo := 0) (nameAt_restrict hl') hG (fun _ _ => Nat.zero_le _) (fun _ _ _ => rfl)
+      (Nat.le_refl _)
+  · show _ = ([] : List RRec).length + pend _
+    unfold pend
+    simp
+
 end QV.Writer
